@@ -305,6 +305,55 @@ class Extracted:
         self.orig = ""
 
 
+def _ws_regex(text):
+    """the rewrite source matched modulo whitespace (so that a multi-line expression can be named on one line)"""
+    toks = text.split()
+    return re.compile(r"\s*".join(re.escape(t) for t in toks))
+
+
+def apply_edits(fn_name, sig2, body2, rewrites, inserts, notes):
+    for (old, new) in rewrites:
+        if old.startswith("\x00w:"):
+            # every occurrence of an identifier (a captured variable that became a `&mut` parameter of the wrapper)
+            word = old[3:]
+            rx = re.compile(r"(?<![\w.])%s\b" % re.escape(word))
+            if not rx.search(body2):
+                raise LostAnchor("%s: identifier not found: %r" % (fn_name, word))
+            body2 = rx.sub(lambda _m: new, body2)
+            notes.append("R6: identifier rewrite in %s: `%s` => `%s`" % (fn_name, word, new))
+            continue
+        if body2.count(old) + sig2.count(old) < 1:
+            rx = _ws_regex(old)
+            if not rx.search(body2):
+                raise LostAnchor("%s: rewrite source text not found: %r" % (fn_name, old))
+            body2 = rx.sub(lambda _m: new, body2)
+        else:
+            body2 = body2.replace(old, new)
+            sig2 = sig2.replace(old, new)
+        notes.append("R6: rewrite in %s: `%s` => `%s`" % (fn_name, old, new))
+    for (where, anchor, text) in inserts:
+        if where == "start":
+            body2 = "{\n" + text + body2[1:]
+            continue
+        cnt = body2.count(anchor)
+        if cnt != 1:
+            raise LostAnchor("%s: anchor %r occurs %d times (need exactly 1)" % (fn_name, anchor, cnt))
+        k = body2.index(anchor)
+        if where == "before":
+            ls = body2.rfind("\n", 0, k) + 1
+            body2 = body2[:ls] + text + body2[ls:]
+        elif where == "loopinv":
+            # insert before the `{` that opens the loop body following the anchor (anchor = loop header prefix)
+            k2 = find_body_open(body2, k + len(anchor))
+            body2 = body2[:k2].rstrip() + "\n" + text + body2[k2:]
+        elif where == "after":
+            k2 = k + len(anchor)
+            body2 = body2[:k2] + "\n" + text + body2[k2:]
+        else:
+            raise ValueError(where)
+    return sig2, body2
+
+
 def extract_fn(repo, file, name, impl=None, nth=0, ret=None, spec="", inserts=(), rewrites=(), as_name=None,
                trait=None, keep_asserts=False):
     src = open(os.path.join(repo, file)).read()
@@ -332,32 +381,7 @@ def extract_fn(repo, file, name, impl=None, nth=0, ret=None, spec="", inserts=()
     body2, nerr = rewrite_error_payloads(body2)
     if nerr:
         ex.notes.append("R4: %d error payload expression(s) replaced by mk_err() in %s" % (nerr, ex.fn_name))
-    for (old, new) in rewrites:
-        if body2.count(old) + sig2.count(old) < 1:
-            raise LostAnchor("%s: rewrite source text not found: %r" % (ex.fn_name, old))
-        body2 = body2.replace(old, new)
-        sig2 = sig2.replace(old, new)
-        ex.notes.append("R6: rewrite in %s: `%s` => `%s`" % (ex.fn_name, old, new))
-    for (where, anchor, text) in inserts:
-        if where == "start":
-            body2 = "{\n" + text + body2[1:]
-            continue
-        cnt = body2.count(anchor)
-        if cnt != 1:
-            raise LostAnchor("%s: anchor %r occurs %d times (need exactly 1)" % (ex.fn_name, anchor, cnt))
-        k = body2.index(anchor)
-        if where == "before":
-            ls = body2.rfind("\n", 0, k) + 1
-            body2 = body2[:ls] + text + body2[ls:]
-        elif where == "loopinv":
-            # insert before the `{` that opens the loop body following the anchor (anchor = loop header prefix)
-            k2 = find_body_open(body2, k + len(anchor))
-            body2 = body2[:k2].rstrip() + "\n" + text + body2[k2:]
-        elif where == "after":
-            k2 = k + len(anchor)
-            body2 = body2[:k2] + "\n" + text + body2[k2:]
-        else:
-            raise ValueError(where)
+    sig2, body2 = apply_edits(ex.fn_name, sig2, body2, rewrites, inserts, ex.notes)
     ex.text = sig2 + "\n" + spec + body2 + "\n"
     return ex
 
@@ -499,6 +523,29 @@ def extract_fragment(repo, file, name, impl, frm, to, nth=0):
     src = open(os.path.join(repo, file)).read()
     start, fnpos, body_open, end = find_fn(src, name, impl=impl, nth=nth)
     body = src[body_open:end]
+    if to == "@block_end":
+        # up to the end of the innermost block enclosing the `frm` line (robust against edits inside the fragment)
+        if body.count(frm) != 1:
+            raise LostAnchor("%s::%s: fragment anchor not found exactly (%d)" % (impl, name, body.count(frm)))
+        a = body.rfind("\n", 0, body.index(frm)) + 1
+        b = None
+        k = a
+        while True:
+            k = body.rfind("{", 0, k)
+            if k < 0:
+                raise LostAnchor("%s::%s: no enclosing block" % (impl, name))
+            try:
+                e = match_brace(body, k)
+            except Exception:
+                continue
+            if e > a:
+                b = body.rfind("\n", 0, e - 1) + 1
+                break
+        frag = body[a:b]
+        frag, _n = drop_log_statements(frag)
+        frag, _m = rewrite_asserts(frag)
+        frag, _k = rewrite_error_payloads(frag)
+        return frag, src[start:end]
     if body.count(frm) != 1 or body.count(to) < 1:
         raise LostAnchor("%s::%s: fragment anchors not found exactly (%d, %d)" % (impl, name, body.count(frm), body.count(to)))
     a = body.rfind("\n", 0, body.index(frm)) + 1
@@ -556,6 +603,11 @@ def _parse_fn_block(block):
             flush()
             rewrites.append((m.group(1).replace('\\"', '"'), m.group(2).replace('\\"', '"')))
             continue
+        m = re.match(r'rewrite_word "(.*)" => "(.*)"$', st)
+        if m:
+            flush()
+            rewrites.append(("\x00w:" + m.group(1), m.group(2)))
+            continue
         if cur is not None:
             buf.append(line)
     flush()
@@ -607,6 +659,8 @@ def expand(template_text, repo):
             tm = re.search(r'to="((?:[^"\\]|\\.)*)"', header)
             frag, orig = extract_fragment(repo, kv["file"], kv["name"], kv.get("impl"), fm.group(1), tm.group(1), int(kv.get("nth", 0)))
             fname = (kv.get("impl", "") + "::" if kv.get("impl") else "") + kv["name"]
+            _spec, f_inserts, f_rewrites = _parse_fn_block(block)
+            _sig, frag = apply_edits(fname + "[fragment]", "", frag, f_rewrites, f_inserts, notes)
             notes.append("R8: fragment of %s (from `%s` up to `%s`) extracted verbatim and wrapped by the template" % (fname, fm.group(1), tm.group(1)))
             start_line = out_len_lines + 1
             emit(frag)
